@@ -333,6 +333,29 @@ control("C09", "left-number arm applies the callback with swapped operands",
         [(S, "                self._quantity, callback_operation(p1, self._value)", "                self._quantity, callback_operation(self._value, p1)")], "C09.R1")
 control("C15", "a query fills a new cache keyed by the unit string only",
         [(Q, "        repr_and_exp: OrderedDict[Any, Any] = OrderedDict()\n        unit_database = self._unit_database\n", "        repr_and_exp: OrderedDict[Any, Any] = OrderedDict()\n        unit_database = self._unit_database\n        unit_database.quantities_cache.setdefault((\"name\", self._unit), self)\n        unit_database.names_seen[self._unit] = True  # type:ignore[attr-defined]\n")], "C15.R4")
+# ------------------------------------------------------------------------------------------ C02
+control("C02", "list branch applies the functions of the wrong units",
+        [(UD, "            frombase = other.frombase\n            tobase = this.tobase", "            frombase = this.frombase\n            tobase = other.tobase")], "C02.R1")
+control("C02", "numpy route swaps source and target",
+        [(UD, "            to_base = from_unit_info.tobase\n            from_base = to_unit_info.frombase", "            to_base = to_unit_info.tobase\n            from_base = from_unit_info.frombase")], "C02.R1")
+control("C02", "numpy route looks units up without fix_unknown",
+        [(UD, "            to_unit_info = db.GetInfo(quantity_type, to_unit, fix_unknown=True)", "            to_unit_info = db.GetInfo(quantity_type, to_unit)")], "C02.R1")
+control("C02", "tuple input comes back as a list",
+        [(UD, "            if isinstance(value, tuple):\n                return tuple(values_gen)\n            else:\n                return list(values_gen)", "            return list(values_gen)")], "C02.R1")
+control("C02", "category default converted from the base unit instead of the category's default unit",
+        [(S, "            value = ObtainQuantity(\n                category_info.default_unit, category_info.category\n            ).ConvertScalarValue(value, unit)", "            value = ObtainQuantity(\n                UnitDatabase.GetSingleton().GetBaseUnit(category_info.quantity_type), category_info.category\n            ).ConvertScalarValue(value, unit)")], "C02.R2")
+control("C02", "Scalar.GetAbstractValue ignores the requested unit",
+        [(S, "            return self._quantity.ConvertScalarValue(self._value, unit)", "            return self._quantity.ConvertScalarValue(self._value, self.unit)")], "C02.R2")
+control("C02", "own-unit fix reverted (derived quantities)",
+        [(Q, "        # same unit: no conversion needed\n        if self._unit == to_unit:\n            return value\n\n        if not self._is_derived:\n", "        if not self._is_derived:\n            if self._unit == to_unit:\n                return value\n")], "C02.R3")
+control("C02", "ConvertScalarToCurrent fix reverted",
+        [(USM, "        converted_value, to_unit = ret_tuple\n        return Scalar(converted_value, to_unit, scalar.GetCategory())", "        return Scalar(*ret_tuple)")], "C02.R4")
+control("C02", "ChangingIndex fix reverted",
+        [(FA, "            scalar = Scalar(self.GetQuantity(), value)", "            scalar = Scalar(value, self.GetUnit())")], "C02.R4")
+control("C02", "CreateCopy with a new unit forgets the category",
+        [(A, "                    return self.CreateWithQuantity(\n                        ObtainQuantity(unit, self._quantity.GetCategory()), value=value, **kwargs\n                    )", "                    return self.CreateWithQuantity(ObtainQuantity(unit), value=value, **kwargs)")], "C02.R4")
+control("C02", "_ConvertWithExp multiplies the plain ratio per power",
+        [(UD, "        value = math.pow(value, 1.0 / from_exp)  # Convert from the exponent\n        value = self.Convert(quantity_type, from_unit, to_unit, value)\n        ret = math.pow(value, to_exp)", "        value = self.Convert(quantity_type, from_unit, to_unit, value)\n        ret = math.pow(value, to_exp)")], "C02.R1")
 # ------------------------------------------------------------------------------------------ running
 def _apply(edits):
     overlay = {}
